@@ -10,12 +10,12 @@ coverage of the three methods.
 """
 import numpy as np
 
-from .. import bus, cover, gen, ref
+from .. import bus, core, cover, gen, ref
 
 LEVEL = 'exploration'
 JOBS = {'quick': 2, 'thorough': 16}
 REQUIRED_MONITORS = ('chi2_reference', 'chi2_rigid_motion', 'chi2_relabel')
-REQUIRED_CLASSES = ('restraint-array:refilled-by-the-caller-afterwards', 'calculator:pickle', 'place:coincident', 'place:far-from-origin', 'place:far-from-origin-aligned', 'mobile-array:same-object-overwritten', 'mobile-array:strided-or-fortran', 'restr:none', 'restr:partial', 'restr:all-fixed', 'restr:dup-fixed', 'restr:dup-mobile',
+REQUIRED_CLASSES = ('recovery:wrong-sized-call-then-used-again', 'restraint-array:refilled-by-the-caller-afterwards', 'calculator:pickle', 'place:coincident', 'place:far-from-origin', 'place:far-from-origin-aligned', 'mobile-array:same-object-overwritten', 'mobile-array:strided-or-fortran', 'restr:none', 'restr:partial', 'restr:all-fixed', 'restr:dup-fixed', 'restr:dup-mobile',
                     'penalty:k>0', 'penalty:k=0', 'embedded:mc')
 RULE = ('calculators over (fixed size 1..40, mobile size 1..25, restraint class, placement class); each is '
         'evaluated on 4 configurations different from the construction one. Non-trivial: at least two mobile '
@@ -237,6 +237,17 @@ def run_calc(ctx, case):
             arg[0] = ((int(arg[0, 0]) + 1) % nf, (int(arg[0, 1]) + 1) % nm)
             ctx.hit('restraint-array:refilled-by-the-caller-afterwards')
             arg = np.array(restr)          # (later calculators of this case get the restraints themselves again)
+        if it % 5 == 3:
+            # something goes wrong and is handled: the calculator is called with a coordinate set of the wrong size by a
+            # caller that runs with warnings as errors; whatever that call does (an exception, a number), the calculator
+            # is used again afterwards with proper input and is judged on that
+            wrong = rng.normal(size=(nm + int(rng.choice([1, 2, 5])), 3)) if rng.random() < 0.7 or nm == 1 else rng.normal(size=(nm - 1, 3))
+            try:
+                with core.settings('warnings-as-errors'):
+                    calc._gmv_real(wrong)
+            except Exception:  # noqa
+                pass
+            ctx.hit('recovery:wrong-sized-call-then-used-again')
         fixed_before = fixed.copy()
         buf = np.empty((nm, 3))
         reuse = it % 2 == 1         # every evaluation passes the same array object, overwritten in place (as the search loop may)
